@@ -302,22 +302,32 @@ def _max_matching(adj, n_right):
 def _is_unique(adj, n_right, match_l):
     """Is the maximum matching ``match_l`` the only maximum matching?
 
-    Another maximum matching must avoid some edge e of this one; then G - e
-    still has a matching of the same size, i.e. (Berge) this matching minus e
-    has an augmenting path in G - e."""
-    edges = [(u, v) for u, v in enumerate(match_l) if v >= 0]
-    for u, v in edges:
-        ml = list(match_l)
-        mr = [-1] * n_right
-        for a, b in edges:
-            mr[b] = a
-        ml[u] = -1
-        mr[v] = -1
-        adj2 = list(adj)
-        adj2[u] = [x for x in adj[u] if x != v]
-        for root in range(len(adj2)):
-            if ml[root] < 0 and _augment(adj2, ml, mr, root):
-                return False
+    Another maximum matching must avoid some edge e = (u, v) of this one; then
+    G - e still has a matching of the same size, i.e. (Berge) this matching
+    minus e has an augmenting path in G - e.  Such a path must start at u or
+    end at v: a path avoiding both would also augment the (maximum) matching
+    itself.  So per edge two searches suffice: from u in G - e, and from v in
+    the transposed graph."""
+    radj = [[] for _ in range(n_right)]
+    for u, row in enumerate(adj):
+        for v in row:
+            radj[v].append(u)
+    adj = list(adj)
+    ml = list(match_l)
+    mr = [-1] * n_right
+    for u, v in enumerate(ml):
+        if v >= 0:
+            mr[v] = u
+    for u, v in [(u, v) for u, v in enumerate(ml) if v >= 0]:
+        row_u, row_v = adj[u], radj[v]
+        adj[u] = [x for x in row_u if x != v]       # G - e
+        radj[v] = [x for x in row_v if x != u]
+        ml[u], mr[v] = -1, -1                       # matching - e
+        # _augment modifies the matching only when it succeeds
+        if _augment(adj, ml, mr, u) or _augment(radj, mr, ml, v):
+            return False
+        ml[u], mr[v] = v, u
+        adj[u], radj[v] = row_u, row_v
     return True
 
 
@@ -352,7 +362,7 @@ def _all_maximum_matchings(adj, n_right, weight):
 
 
 def _overlap_ratio(ref, est):
-    """"the ratio between the duration of the time segment in which the two
+    """Documented: "the ratio between the duration of the time segment in which the two
     notes overlap and the time segment spanned by the two notes combined":
     (min(offsets) - max(onsets)) / (max(offsets) - min(onsets))."""
     r_on, r_off = _fr(ref[0]), _fr(ref[1])
@@ -409,7 +419,7 @@ def _analyse(adj, n_est, ref_iv, est_iv):
 # --------------------------------------------------------------------------
 
 def average_overlap_ratio(ref_intervals, est_intervals, matching):
-    """"The Average Overlap Ratio (AOR) is given by the mean OR computed over
+    """Documented: "The Average Overlap Ratio (AOR) is given by the mean OR computed over
     all matching reference and estimated notes"; 0 for an empty matching."""
     ref_iv = [(float(a), float(b)) for a, b in np.asarray(ref_intervals, dtype=float).reshape(-1, 2).tolist()]
     est_iv = [(float(a), float(b)) for a, b in np.asarray(est_intervals, dtype=float).reshape(-1, 2).tolist()]
@@ -457,7 +467,7 @@ def precision_recall_f1_overlap(
 
 def onset_precision_recall_f1(ref_intervals, est_intervals, onset_tolerance=0.05,
                               strict=False, beta=1.0):
-    """"an estimated onset is considered correct if it is within +-50ms of a
+    """Documented: "an estimated onset is considered correct if it is within +-50ms of a
     reference onset ... completely ignores note offset and note pitch"."""
     ref_iv = _intervals(ref_intervals, "Reference")
     est_iv = _intervals(est_intervals, "Estimated")
@@ -475,7 +485,7 @@ def onset_precision_recall_f1(ref_intervals, est_intervals, onset_tolerance=0.05
 
 def offset_precision_recall_f1(ref_intervals, est_intervals, offset_ratio=0.2,
                                offset_min_tolerance=0.05, strict=False, beta=1.0):
-    """"an estimated offset is considered correct if it is within +-50ms (or
+    """Documented: "an estimated offset is considered correct if it is within +-50ms (or
     20% of the ref note duration, which ever is greater) of a reference offset
     ... completely ignores note onsets and note pitch"."""
     ref_iv = _intervals(ref_intervals, "Reference")
